@@ -4,7 +4,7 @@
 set -u
 patch=$(readlink -f "$1"); prop=$2; tier=${3:-quick}
 wt=/var/tmp/mutant.$$.$(date +%s)
-git -C /repo worktree add --detach "$wt" HEAD >/dev/null 2>&1 || { echo "worktree failed"; exit 2; }
+git -C /repo worktree add --detach "$wt" ${MUTANT_BASE:-HEAD} >/dev/null 2>&1 || { echo "worktree failed"; exit 2; }
 if ! git -C "$wt" apply "$patch" 2>/var/tmp/mutant.$$.err; then
   if ! git -C "$wt" apply --3way "$patch" 2>>/var/tmp/mutant.$$.err; then
     echo "PATCH DOES NOT APPLY: $(cat /var/tmp/mutant.$$.err | head -5)"; git -C /repo worktree remove --force "$wt"; rm -f /var/tmp/mutant.$$.err; exit 3
